@@ -588,6 +588,79 @@ func SpecPred(p *core.Prog, r *core.Report) {
 	r.Floor("spec_message_categories", 15)
 	r.Count("spec_predicate_sites", n)
 	r.Floor("spec_predicate_sites", 18)
+	// … in every response: the list of responses the rule walks is fed with the default response and with each
+	// response of the status-code map
+	if f := p.Func("(*SpecValidator).validateItems"); f != nil {
+		var mentions func(v ssa.Value, suffix string, d int) bool
+		mentions = func(v ssa.Value, suffix string, d int) bool {
+			if v == nil || d > 6 {
+				return false
+			}
+			if pth, ok := core.Path(v); ok && strings.Contains(pth, suffix) {
+				return true
+			}
+			switch x := v.(type) {
+			case *ssa.UnOp:
+				if al, isAl := x.X.(*ssa.Alloc); isAl {
+					for _, ref := range core.Refs(al) {
+						switch u := ref.(type) {
+						case *ssa.Store:
+							if u.Addr == ssa.Value(al) && mentions(u.Val, suffix, d+1) {
+								return true
+							}
+						case *ssa.IndexAddr:
+							for _, r2 := range core.Refs(u) {
+								if st, isSt := r2.(*ssa.Store); isSt && st.Addr == ssa.Value(u) && mentions(st.Val, suffix, d+1) {
+									return true
+								}
+							}
+						}
+					}
+				}
+				return mentions(x.X, suffix, d+1)
+			case *ssa.Slice:
+				return mentions(x.X, suffix, d+1)
+			case *ssa.Alloc:
+				for _, ref := range core.Refs(x) {
+					if ia, isIA := ref.(*ssa.IndexAddr); isIA {
+						for _, r2 := range core.Refs(ia) {
+							if st, isSt := r2.(*ssa.Store); isSt && st.Addr == ssa.Value(ia) && mentions(st.Val, suffix, d+1) {
+								return true
+							}
+						}
+					}
+				}
+			case *ssa.Extract:
+				return mentions(x.Tuple, suffix, d+1)
+			case *ssa.Next:
+				return mentions(x.Iter, suffix, d+1)
+			case *ssa.Range:
+				return mentions(x.X, suffix, d+1)
+			}
+			return false
+		}
+		hasDefault, hasCodes := false, false
+		core.EachInstr(f, func(i ssa.Instruction) {
+			c, ok := i.(*ssa.Call)
+			if !ok || len(c.Call.Args) < 2 {
+				return
+			}
+			if b, isB := c.Call.Value.(*ssa.Builtin); !isB || b.Name() != "append" {
+				return
+			}
+			if mentions(c.Call.Args[1], "Props.Default", 0) || mentions(c.Call.Args[1], "Responses.Default", 0) {
+				hasDefault = true
+			}
+			if mentions(c.Call.Args[1], "StatusCodeResponses", 0) {
+				hasCodes = true
+			}
+		})
+		if hasDefault && hasCodes {
+			r.OK(rule, "validateItems:all-responses", p.Pos(f.Pos()), "the default response and every status-code response are collected")
+		} else {
+			r.Bad(rule, "validateItems:all-responses", p.Pos(f.Pos()), fmt.Sprintf("the array-requires-items rule no longer looks at every response (default collected: %v, status codes collected: %v): array headers and schemas of the others are not checked", hasDefault, hasCodes))
+		}
+	}
 	// arrays declare items at every depth: the schema walk of the rule descends into the items schema by calling
 	// itself where that schema is there (an array of arrays whose inner array has no items is reported)
 	if f := p.Func("(*SpecValidator).validateSchemaItems"); f != nil {
